@@ -808,11 +808,17 @@ def rule_fallback(ck):
             continue
         ck.ob(rid, afh, r.ast, no_route.get(r.id, False), "fallback handlers are used only when no rule matched")
         if isinstance(v, ast.Call) and q.dotted(v.func) == "self.get_handler_delegate":
-            if len(v.args) >= 2 and q.dotted(v.args[1]) == "ErrorHandler":
+            if len(v.args) >= 2 and xdotted(afh.node, v.args[1]) == "ErrorHandler":
                 n404 += 1
-                kw = v.args[2] if len(v.args) > 2 else None
-                ok = isinstance(kw, ast.Dict) and any(q.is_const(k, "status_code") and q.is_const(val, 404) for k, val in zip(kw.keys, kw.values))
-                ck.ob(rid, afh, r.ast, ok, "the last resort is ErrorHandler with status 404")
+                kw = alias_expand(afh.node, v.args[2] if len(v.args) > 2 else q.kwarg(v, "target_kwargs"))
+                items = None
+                if isinstance(kw, ast.Dict) and all(isinstance(k, ast.Constant) for k in kw.keys):
+                    items = {k.value: val for k, val in zip(kw.keys, kw.values)}
+                elif q.is_call(kw, "dict") and not kw.args:
+                    items = {k.arg: k.value for k in kw.keywords if k.arg}
+                if items is None or "status_code" not in items or not isinstance(alias_expand(afh.node, items["status_code"]), ast.Constant):
+                    raise AnalysisError("Application.find_handler: arguments of the ErrorHandler fallback not understood: %s" % q.unparse(v))
+                ck.ob(rid, afh, r.ast, alias_expand(afh.node, items["status_code"]).value == 404, "the last resort is ErrorHandler with status 404")
             else:
                 ok = any(pol and "default_handler_class" in t for t, pol in facts[r.id])
                 ck.ob(rid, afh, r.ast, ok, "a configured default handler is used only when the setting is present")
@@ -886,9 +892,9 @@ def rule_reverse_lookup(ck):
 
 
 def run(ck):
-    from ..x_valuewalk import guard_obligations, plain_assignments
+    from ..x_valuewalk import guard_obligations, canonical
 
-    ck.repo = plain_assignments(ck.repo, ["tornado/routing.py", "tornado/util.py"])
+    ck.repo = canonical(ck.repo, ["tornado/routing.py", "tornado/util.py", "tornado/web.py"], keep_names=('_DEFAULT_AUTOESCAPE',))
 
     guard_obligations(ck, ['_find_groups', '_unquote_or_none', '_re_unescape_replacement', '_load_ui_modules', '_load_ui_methods', '_execute', '_has_stream_request_body', '_parse_body'])
     ck.rule("C31.first-match", "RuleRouter.find_handler tries self.rules in insertion order and returns inside the loop at the first non-None delegate of a matching rule, else None; add_rules appends in order; Application keeps the catch-all rule last")
